@@ -37,7 +37,7 @@ pub const DEF: CheckDef = CheckDef {
     id: "C18",
     run,
     technique: "bounded-exhaustive enumeration of consistent camt.053 statements rendered as XML by the generator; the real importer (library entry point and ImportCmd on real files) is compared with a reference import written from the statement, and funding + printed output is fed back through the real report::process (acceptance and exact final balance)",
-    rule: "case = one statement + configuration = (currency unit, opening balance (3 per unit; CHF: 0, 100.00, -50.25), notation of the figures, configuration, sequence of entries). Entry alphabet E (1260) = side{CRDT,DBIT} x amount{0.05,10.10,1000} x 5 relative value/booking-date forms x 42 detail/charge shapes (see notes/C18/NOTES.md). Families, each a complete product x 3 openings: F0 no entry, F1 one entry over E, F1n same without operator, F2n pairs without operator over 24, quick F2 pairs over 108 / F2d date pairs over 20 / F3 triples over 12, thorough F2 pairs over 1140 / F3 triples over 72 / F4 quadruples over 12 (all x 2 row orders); configuration families over 18 letters: Fw imported-account width 34..48 x {ASCII, wide} x precision {2, none}, Fc same for the rewrite-assigned counter account, Fl 10 nested-fragment layouts x 2 row orders; value classes: Fd one entry x 20 absolute (value, booking) date pairs (month/year/leap-day/decade/millennium boundaries, > 1 year apart, both orders) x 2 row orders; Fp-<ccy> one entry over 32 letters in units of 0/1/2/3/4/8 decimals (JPY, XDC, CHF, KWD, CLF, BTC; amounts 5 units, all-decimals figure, >= 1 000 000, 1.1) x notation {full, minimal, zero-padded} x precision {unit, none}; Fq-<ccy> pairs over 8 letters. states = statements executed, transitions = ledger transactions compared with the reference (both observations), validated = MUST statements",
+    rule: "case = one statement + configuration = (currency unit, opening balance (3 per unit; CHF: 0, 100.00, -50.25), notation of the figures, configuration, sequence of entries). Entry alphabet E (1440) = side{CRDT,DBIT} x amount{0.05,10.10,1000} x 5 relative value/booking-date forms x 48 detail/charge shapes (see notes/C18/NOTES.md). Families, each a complete product x 3 openings: F0 no entry, F1 one entry over E, F1n same without operator, F2n pairs without operator over 24, quick F2 pairs over 108 / F2d date pairs over 20 / F3 triples over 12, thorough F2 pairs over 1140 / F3 triples over 72 / F4 quadruples over 12 (all x 2 row orders); configuration families over 18 letters: Fw imported-account width 34..48 x {ASCII, wide} x precision {2, none}, Fc same for the rewrite-assigned counter account, Fl 10 nested-fragment layouts x 2 row orders; value classes: Fd one entry x 20 absolute (value, booking) date pairs (month/year/leap-day/decade/millennium boundaries, > 1 year apart, both orders) x 2 row orders; Fp-<ccy> one entry over 32 letters in units of 0/1/2/3/4/8 decimals (JPY, XDC, CHF, KWD, CLF, BTC; amounts 5 units, all-decimals figure, >= 1 000 000, 1.1) x notation {full, minimal, zero-padded} x precision {unit, none}; Fq-<ccy> pairs over 8 letters; zero figures: Fz one zero-amount entry (CRDT, DBIT) x 2 date forms x 10 charge-free shapes, Fz2 pairs over side x {0, 10.10} x {k0,k1,k2}, Fz3 triples over side x {0, 0.05} x k0 (x 2 row orders). states = statements executed, transitions = ledger transactions compared with the reference (both observations), validated = MUST statements",
     assumptions: &[
         "the generator's XML skeleton follows okane's own sample file (cli/tests/testdata/import/iso_camt.xml); elements okane does not model (GrpHdr, Acct, TxsSummry, RvslInd, Sts, Btch totals, RltdPties) are constant",
         "included charge: the entry/detail amount is the account movement; AmtDtls/TxAmt (when rendered) is the amount net of the included charges (debit: Amt - charges, credit: Amt + charges) as in the sample file; an entry-level charge on a two-detail batch is attributed to the first detail's TxAmt",
